@@ -148,6 +148,109 @@ def replay_iterate_rate(point, order):
     return None
 
 
+def case_perturbative_combination(log, order, extra, its, is_exact):
+    """eko_perturbative's own combination: r_vec is asked for the series through the *expansion* order (and told the perturbative
+    order and the fill mode), u_vec for U through the expansion order, and each step is U(a_h) E_LO(a_h, a_l) U(a_l)^-1 with
+    U(a) = sum_{k < expansion order} U_k a^k, steps multiplied later-on-the-left over the geometric nodes (r_vec, u_vec, lo_exact
+    replaced by recorders returning symbolic non-commuting matrices; they are decided in their own cases)."""
+    ns, sg, ei, as4, ad = kernel_modules()
+    log.encode(sg.eko_perturbative, sg.sum_u)
+    rp = (MOD, "replay_perturbative", {"order": order, "extra": extra, "its": its, "is_exact": is_exact})
+    key = "singlet.eko_perturbative:%d:combination" % order
+    log.register_replay(key, rp, _sampler)
+    M = order + extra
+
+    def Z(x, what):
+        v = prove_zero(Cx.lift(x), what, timeout_ms=60000)
+        log.decide(v, key=key, replay=rp, sampler=_sampler)
+
+    def run():
+        a0, a1 = SR.var("a0"), SR.var("a1")
+        assume(a0, ">0")
+        assume(a1, ">0")
+        calls = {"r": [], "u": [], "lo": []}
+        I2 = realnp.array([[1, 0], [0, 1]], dtype=object)
+        U = [I2] + [realnp.array([[SR.var("u%d_%d%d" % (k, i, j)) for j in range(2)] for i in range(2)], dtype=object) for k in range(1, M)]
+        rtok = realnp.array(["r-token"], dtype=object)
+        gtok, btok = object(), object()
+
+        def r_vec(g, b, mo, o, ex):
+            calls["r"].append((g, b, tuple(mo), tuple(o), ex))
+            return rtok
+
+        def u_vec(r, mo):
+            calls["u"].append((r, tuple(mo)))
+            return realnp.array(U, dtype=object)
+
+        def lo_exact(g, ah, al, b):
+            k = len(calls["lo"])
+            calls["lo"].append((g, ah, al, b))
+            return realnp.array([[SR.var("e%d_%d%d" % (k, i, j)) for j in range(2)] for i in range(2)], dtype=object)
+
+        saved = (sg.r_vec, sg.u_vec, sg.lo_exact)
+        sg.r_vec, sg.u_vec, sg.lo_exact = r_vec, u_vec, lo_exact
+        sg.np.geomspace_roots = True
+        try:
+            E = sg.eko_perturbative(gtok, a1, a0, btok, (order, 0), its, (M, 0), is_exact)
+        finally:
+            sg.r_vec, sg.u_vec, sg.lo_exact = saved
+        tag = "order %d, expansion order %d, %d step(s), exact fill=%s" % (order, M, its, is_exact)
+        ok_r = len(calls["r"]) == 1 and calls["r"][0][0] is gtok and calls["r"][0][1] is btok and calls["r"][0][2] == (M, 0) and calls["r"][0][3] == (order, 0) and calls["r"][0][4] is is_exact
+        Z(SR(0 if ok_r else 1), "r_vec asked with (gamma, beta, expansion order, perturbative order, fill mode) [%s]" % tag)
+        ok_u = len(calls["u"]) == 1 and calls["u"][0][0] is rtok and calls["u"][0][1] == (M, 0)
+        Z(SR(0 if ok_u else 1), "u_vec asked with r and the expansion order [%s]" % tag)
+        Z(SR(0 if len(calls["lo"]) == its and all(c[0] is gtok and c[3] is btok for c in calls["lo"]) else 1), "one LO factor per step with (gamma, beta) [%s]" % tag)
+        if len(calls["lo"]) == its:
+            nodes = [calls["lo"][0][2]] + [c[1] for c in calls["lo"]]
+            Z(nodes[0] - a0, "first node a0 [%s]" % tag)
+            Z(nodes[-1] - a1, "last node a1 [%s]" % tag)
+            for k in range(1, its):
+                Z(nodes[k] * nodes[k] - nodes[k - 1] * nodes[k + 1], "nodes geometric [%s]" % tag)
+                Z(calls["lo"][k][2] - calls["lo"][k - 1][1], "steps contiguous [%s]" % tag)
+            want = I2
+            for k in range(its):
+                ah, al = nodes[k + 1], nodes[k]
+                Uh = sum(U[j] * ah**j for j in range(M))
+                Ul = sum(U[j] * al**j for j in range(M))
+                e0 = realnp.array([[SR.var("e%d_%d%d" % (k, i, j)) for j in range(2)] for i in range(2)], dtype=object)
+                want = (Uh @ e0 @ sg.np.linalg.inv(Ul)) @ want
+            for i in range(2):
+                for j in range(2):
+                    Z(E[i, j] - want[i, j], "eko_perturbative == ordered product of U(a_h) E_LO U(a_l)^-1 over the nodes, entry [%d,%d] [%s]" % (i, j, tag))
+        log.twin("domain")
+        log.collect_ctx()
+
+    _r, pm = explore(run)
+    log.path_stats(pm)
+
+
+def replay_perturbative(point, order, extra, its, is_exact):
+    """real eko_perturbative vs the same formula assembled from the real r_vec / u_vec / lo_exact with the documented arguments"""
+    import numpy as np
+    import eko.kernels.singlet as sg
+    from eko import beta as B
+
+    nf = 4
+    rng = np.random.default_rng(5)
+    g = rng.normal(size=(order, 2, 2)) * 2 + 0.3j
+    bet = [B.beta_qcd((2 + k, 0), nf) for k in range(order)]
+    a0, a1 = 0.04, 0.015
+    M = order + extra
+    got = sg.eko_perturbative(g, a1, a0, bet, (order, 0), its, (M, 0), is_exact)
+    r = sg.r_vec(g, bet, (M, 0), (order, 0), is_exact)
+    u = sg.u_vec(r, (M, 0))
+    nodes = np.geomspace(a0, a1, its + 1)
+    want = np.eye(2, dtype=complex)
+    for k in range(its):
+        ah, al = nodes[k + 1], nodes[k]
+        Uh = sum(u[j] * ah**j for j in range(M))
+        Ul = sum(u[j] * al**j for j in range(M))
+        want = (Uh @ sg.lo_exact(g, ah, al, bet) @ np.linalg.inv(Ul)) @ want
+    if np.abs(got - want).max() > 1e-10 * np.abs(want).max():
+        return {"detail": "eko_perturbative (order %d, expansion order %d, %d steps, exact fill=%s) differs from the product of U(a_h) E_LO U(a_l)^-1 built from r_vec/u_vec at the expansion order by %r" % (order, M, its, is_exact, np.abs(got - want).max())}
+    return None
+
+
 def case_uvec(log, K):
     ns, sg, ei, as4, ad = kernel_modules()
     log.encode(sg.u_vec, ad.exp_matrix_2D)
@@ -574,7 +677,10 @@ def main():
         chk.case("iterate.rate.o%d" % o, case_iterate_rate, order=o, its=(1, 2, 3) if (thorough or o == 2) else (1, 2))
     for o in (1, 2, 3, 4):
         chk.case("dispatcher.routing.o%d" % o, case_routing, order=o)
+    for (o, extra, its, ex) in ((2, 2, 1, True), (3, 1, 2, False), (2, 0, 2, True)) + (((4, 2, 1, True), (3, 3, 2, True)) if thorough else ()):
+        chk.case("perturbative.combination.o%d.M%d.its%d.%s" % (o, o + extra, its, "exact" if ex else "expanded"), case_perturbative_combination, order=o, extra=extra, its=its, is_exact=ex)
     chk.case("u_vec.K4", case_uvec, K=4)
+    chk.case("u_vec.K5", case_uvec, K=5)
     if thorough:
         chk.case("u_vec.K6", case_uvec, K=6)
     for o in (2, 3, 4):
